@@ -316,7 +316,7 @@ class Model:
     resolved in the current directory):
       ("cd", name|b"/"|b"..")  ("mkdir", n)  ("write", hostidx, n)  ("symlink", n, target)
       ("mknod", n, b"p")  ("mknod", n, b"c"|b"b", major, minor)  ("ln", src, dst)  ("unlink", n)
-      ("sif", n, count)   ("rm", n)  ("rmdir", n)  ("expand_dir", n)
+      ("sif", n, count)   ("rm", n)  ("rmdir", n)  ("expand_dir", n|b".")
     debugfs semantics: `ln` and `unlink` add / remove a directory entry WITHOUT touching
     i_links_count; `sif <name> links_count <n>` sets it; `rm` decrements it and frees the inode
     at 0.  apply() returns OK (must succeed; model updated), FAIL (must be rejected; model
@@ -413,6 +413,8 @@ class Model:
             self.cwd = o.oid
             return OK
         n = op[2] if cmd == "write" else op[1]
+        if cmd == "expand_dir" and n == b".":
+            return OK                      # the current directory itself
         if not name_ok(n):
             return UNDEF
         if cmd in ("mkdir", "write", "symlink", "mknod"):
@@ -523,6 +525,8 @@ def op_line(op, hostfiles):
         return b"ln " + quote(op[1]) + b" " + quote(op[2])
     if cmd == "sif":
         return b"sif " + quote(op[1]) + b" links_count %d" % op[2]
+    if cmd == "expand_dir" and op[1] == b".":
+        return b"expand_dir ."
     if cmd in ("unlink", "rm", "rmdir", "expand_dir"):
         return cmd.encode() + b" " + quote(op[1])
     raise ValueError(cmd)
